@@ -245,8 +245,9 @@ def evaluate(name, info, x, cls):
     n = len(x)
     impl, impl_note = run_impl(name, x)
     ref, ref_note = guarded(REF[name], x) if name in REF else (None, 'no-reference')
-    docv, doc_note = guarded(ev, info['doc'], x)
-    codev, code_note = guarded(ev, info['code'], x)
+    have_trees = 'code' in info
+    docv, doc_note = guarded(ev, info['doc'], x) if have_trees else (None, 'not translated')
+    codev, code_note = guarded(ev, info['code'], x) if have_trees else (None, 'not translated')
     c = {'f': name, 'n': n, 'cls': cls, 'x': x, 'impl': impl, 'impl_note': impl_note, 'ref': ref, 'ref_note': ref_note,
          'doc': docv, 'doc_note': doc_note, 'code': codev, 'code_note': code_note, 'oracle': [], 'tie': []}
     # -- formula oracle (implementation against the independent reference and against the documented formula)
@@ -255,6 +256,8 @@ def evaluate(name, info, x, cls):
     else:
         for label, val, note in (('hand-written reference of the docstring formula', ref, ref_note),
                                  ('docstring formula (regenerated doc_%s)' % name, docv, doc_note)):
+            if not have_trees and not label.startswith('hand'):
+                continue
             if val is None and impl is None:
                 if label.startswith('hand'):
                     if name == 'csendes' and any(t == 0 for t in x):
@@ -283,7 +286,9 @@ def evaluate(name, info, x, cls):
             c['oracle'].append({'key': 'attain:%s' % name, 'what': '%s does not attain its documented minimum %r at the known '
                                 'minimiser: %r' % (name, m, impl)})
     # -- translator validation: the model of the body evaluates like the body
-    if (codev is None) != (impl is None) or (codev is not None and not close(impl, codev)):
+    if not have_trees:
+        pass
+    elif (codev is None) != (impl is None) or (codev is not None and not close(impl, codev)):
         c['tie'].append('code_%s evaluates to %r (%s), the implementation to %r (%s)' % (name, codev, code_note, impl, impl_note))
     return c
 
@@ -341,7 +346,7 @@ def points(name, info, quick):
 
 def coq_admissible(name, info, c):
     """Points the enclosure run can handle: finite value; real powers only on positive bases."""
-    if c['impl'] is None or c['code'] is None:
+    if c['impl'] is None or c['code'] is None or 'code' not in info:
         return False
 
     def has(t, tag):
@@ -355,7 +360,9 @@ def coq_admissible(name, info, c):
 
 def main():
     pl = hlib.payload() or {}
-    trees = pl.get('trees', {})
+    trees = dict(pl.get('trees', {}))
+    for name, info in pl.get('fallback', {}).items():      # functions T3 could not translate: oracle only
+        trees.setdefault(name, info)
     active = sorted(k for k, v in vars(B).items() if callable(v) and getattr(v, '__module__', None) == B.__name__
                     and not k.startswith('_'))
     if pl.get('replay') is not None:
